@@ -30,6 +30,8 @@ type stream struct {
 
 	isDetaching bool
 	isAttached  bool
+	// isBlocked is set while the owner waits in blockGet for the next event
+	isBlocked bool
 
 	first *Event
 	last  *Event
@@ -139,10 +141,12 @@ func (s *stream) blockGet() *Event {
 	}
 	for s.first == nil {
 		s.blockTime = time.Now()
+		s.isBlocked = true
 		s.streamer.makeBlocked(s)
 		s.cond.Wait()
 		s.streamer.resetBlocked(s)
 	}
+	s.isBlocked = false
 	// the stream isn't blocked anymore. The heartbeat may still hold it in the snapshot of blocked
 	// streams it took before: with the old block time its tryUnblock would find the stream "idle for
 	// too long" while this event is being processed (away event id != commit event id).
@@ -176,6 +180,12 @@ func (s *stream) tryUnblock() bool {
 	}
 
 	s.mu.Lock()
+	// the heartbeat works on a snapshot of the blocked streams: this one may have got its event since then
+	if !s.isBlocked {
+		s.mu.Unlock()
+		return false
+	}
+
 	if time.Since(s.blockTime) < s.streamer.eventTimeout {
 		s.mu.Unlock()
 		return false
